@@ -308,6 +308,10 @@ func (c *C) attemptConnect(ctx context.Context, lmtp bool, endp config.Endpoint,
 func (c *C) Mail(ctx context.Context, from string, opts smtp.MailOptions) error {
 	defer trace.StartRegion(ctx, "smtpconn/MAIL FROM").End()
 
+	// New transaction, forget recipients of the previous one (the connection
+	// may be reused for multiple messages).
+	c.rcpts = nil
+
 	outOpts := smtp.MailOptions{
 		// Future extensions may add additional fields that should not be
 		// copied blindly. So we copy only fields we know should be handled
